@@ -3,14 +3,19 @@ package storage
 import (
 	"bytes"
 	"io"
+	"sync"
 
 	"github.com/bluenviron/mediacommon/v2/pkg/formats/fmp4/seekablebuffer"
 )
 
 type partDisk struct {
 	s      *fileDisk
-	buffer *seekablebuffer.Buffer
 	offset uint64
+
+	// buffer and size are written when the file is finalized,
+	// while readers may be using the part.
+	mutex  sync.Mutex
+	buffer *seekablebuffer.Buffer
 	size   uint64
 }
 
@@ -33,11 +38,16 @@ func (p *partDisk) Writer() io.WriteSeeker {
 
 // Reader implements Part.
 func (p *partDisk) Reader() (io.ReadCloser, error) {
+	p.mutex.Lock()
+	buffer := p.buffer
+	size := p.size
+	p.mutex.Unlock()
+
 	// read from RAM if possible
-	if p.buffer != nil {
-		return io.NopCloser(bytes.NewReader(p.buffer.Bytes())), nil
+	if buffer != nil {
+		return io.NopCloser(bytes.NewReader(buffer.Bytes())), nil
 	}
 
 	// read from disk
-	return newDiskPartReader(p.s.fpath, p.offset, p.size)
+	return newDiskPartReader(p.s.fpath, p.offset, size)
 }
